@@ -545,6 +545,53 @@ Proof.
   - apply Permutation_map. exact Hp.
 Qed.
 
+
+(* ================= the lookup depends only on which labels are equal ================= *)
+(* Any injective relabelling f that fixes "*" (e.g. reversing the characters of a label byte-wise or rune-wise, or any
+   other encoding of labels) applied to the table and to the request leaves every answer unchanged.  Hence for
+   non-ASCII hosts the only effects of Go's rune reversal / Unicode ToLower are the identifications they introduce
+   (case folding beyond ASCII; invalid UTF-8 bytes collapsing to U+FFFD), never a different matching rule. *)
+Section Relabel.
+Variable f : bytes -> bytes.
+Hypothesis f_inj : forall a b, f a = f b -> a = b.
+Hypothesis f_star : f star = star.
+Lemma is_star_f l : is_star (f l) = is_star l.
+Proof.
+  unfold is_star. destruct (bytes_eqb l star) eqn:E.
+  - apply bytes_eqb_eq in E. subst. rewrite f_star. apply bytes_eqb_refl.
+  - destruct (bytes_eqb (f l) star) eqn:E2; [|reflexivity]. apply bytes_eqb_eq in E2. rewrite <- f_star in E2.
+    apply f_inj in E2. subst. rewrite bytes_eqb_refl in E. discriminate.
+Qed.
+Lemma valid_path_f p : valid_path (map f p) = valid_path p.
+Proof. induction p as [|k p IH]; [reflexivity|]. simpl. rewrite IH, is_star_f. destruct p; reflexivity. Qed.
+Lemma paths_eqb_f p q : paths_eqb (map f p) (map f q) = paths_eqb p q.
+Proof.
+  revert q. induction p as [|a p IH]; intros [|b' q]; simpl; try reflexivity. rewrite IH. f_equal.
+  destruct (bytes_eqb a b') eqn:E.
+  - apply bytes_eqb_eq in E. subst. apply bytes_eqb_refl.
+  - destruct (bytes_eqb (f a) (f b')) eqn:E2; [|reflexivity]. apply bytes_eqb_eq in E2. apply f_inj in E2. subst.
+    rewrite bytes_eqb_refl in E. discriminate.
+Qed.
+Definition relabel (tbl : tbl_t) : tbl_t := map (fun e => (map f (fst e), snd e)) tbl.
+Lemma exact_of_f tbl q : exact_of (relabel tbl) (map f q) = exact_of tbl q.
+Proof.
+  unfold exact_of, relabel. induction tbl as [|e tbl IH]; [reflexivity|]. simpl. rewrite IH.
+  rewrite valid_path_f, paths_eqb_f. reflexivity.
+Qed.
+Lemma spd_map q : strict_prefixes_desc (map f q) = map (map f) (strict_prefixes_desc q).
+Proof.
+  induction q as [|k q IH]; [reflexivity|]. simpl. rewrite IH, map_app, !map_map. reflexivity.
+Qed.
+Theorem spec_paths_relabel tbl q : spec_paths (relabel tbl) (map f q) = spec_paths tbl q.
+Proof.
+  unfold spec_paths, wild_of. rewrite exact_of_f. destruct (exact_of tbl q); [reflexivity|].
+  rewrite spd_map, first_some_map. apply first_some_ext. intros pre.
+  rewrite <- (exact_of_f tbl (pre ++ [star])). rewrite map_app. simpl. rewrite f_star. reflexivity.
+Qed.
+Theorem trie_relabel tbl q : tget (map f q) (build_paths (relabel tbl)) = tget q (build_paths tbl).
+Proof. rewrite !trie_refines_spec. apply spec_paths_relabel. Qed.
+End Relabel.
+
 (* the executable property holds of the model on every well-formed input *)
 From Bfe Require Import run.RunC10.
 Theorem find_host_route_natural tbl host : find_host_route tbl host = spec_host tbl host.
